@@ -63,6 +63,20 @@ Theorem C15_denotes : forall ns val q, resolve ns val = Some q ->
 Proof. exact resolve_denotes. Qed.
 Print Assumptions C15_denotes.
 
+(** A context prefix that merely BEGINS with "http" (httpbin, https-api, ...) is a prefix like any
+    other: "p:l" is resolved through the payload's context unless p is exactly http / https. *)
+Theorem C15_http_like_prefix : forall ns p l, split_colon p = None -> p <> "http" -> p <> "https" ->
+  resolve ns (p ++ ":" ++ l) = match ns_get ns p with Some e => Some (NQ e l) | None => None end.
+Proof. exact resolve_http_like_prefix. Qed.
+Print Assumptions C15_http_like_prefix.
+
+(** The parser's key cache never changes what a key denotes, as long as entries are keyed by the
+    payload key they were resolved from (the invariant is preserved by every lookup). *)
+Theorem C15_cache_transparent : forall ns c k, cache_ok ns c ->
+  fst (resolve_cached ns c k) = resolve ns k /\ cache_ok ns (snd (resolve_cached ns c k)).
+Proof. exact cache_transparent. Qed.
+Print Assumptions C15_cache_transparent.
+
 (** Refutations on the pinned tree: one witness per panic class (F15a) *)
 Theorem C15_refuted_panic_deleted_string : exists ts, snd (fst (parse_stream current 40 true ts)) = OPanic.
 Proof. exists w_deleted. exact refuted_deleted. Qed.
@@ -132,3 +146,7 @@ Proof. exact ns_prefix_not_url. Qed.
 Example C15_nonvacuous_spec_differs :
   fst (spec_stream 40 true w_unknown_arr) <> fst (parse_stream current 40 true w_unknown_arr).
 Proof. vm_compute. discriminate. Qed.
+Example C15_nonvacuous_httpbin :
+  resolve [("httpbin", "http://ex.org/a/"); ("https-api", "http://ex.org/b#")] "https-api:reports/2024"
+  = Some (NQ "http://ex.org/b#" "reports/2024").
+Proof. vm_compute. reflexivity. Qed.
